@@ -209,6 +209,25 @@ func ruleSetDelegation(c *Ctx, rule string) {
 					c.fail(rule, key, fn.Pos(), "does not delegate to imapnum.Set."+obj.Name())
 					continue
 				}
+				// the delegation is unconditional: every return is dominated by
+				// the call, except returns taken when the argument or receiver
+				// is the SearchRes marker (documented special value)
+				flow := gateFlow(fn, facts{})
+				for _, ret := range returnsOf(fn) {
+					if call.Block().Dominates(ret.Block()) {
+						continue
+					}
+					f, _ := flow.at(ret)
+					marker := false
+					for _, a := range f.list() {
+						if strings.HasPrefix(a, "ok:") && strings.Contains(a, "IsSearchRes") {
+							marker = true
+						}
+					}
+					if !marker {
+						c.fail(rule, key+": return without delegating", ret.Pos(), "a path through "+key+" returns without calling imapnum.Set."+obj.Name()+" (and not because of the SearchRes marker): a fast path that bypasses the set algebra (e.g. aliasing the argument's storage or skipping canonicalisation)")
+					}
+				}
 				okOrder := true
 				args := call.Call.Args[1:]
 				params := fn.Params[1:]
